@@ -749,6 +749,14 @@ class World:
         # supervisord opens its HTTP servers (the Supvisors plugin is created there) and enters its main loop at once:
         # SupervisorRunningEvent comes first
         s.started = True
+        # liveness bookkeeping (C09 / C10 judges of the quiet phase): date of the last start / stop request sent, date of the last FSM state change
+        s.last_request = T[0]; s.state_since = T[0]; s.state_seen = s.fsm.state
+        for nm in ('send_start_process', 'send_stop_process'):
+            orig = getattr(s.rpc_handler, nm)
+            def wrapped(*a, _orig=orig, _s=s, **k_):
+                _s.last_request = T[0]
+                return _orig(*a, **k_)
+            setattr(s.rpc_handler, nm, wrapped)
         self.guarded(s, 'on_running', s.listener.on_running, None)
         return s
 
@@ -778,6 +786,8 @@ class World:
             self.finding('C16:tick-stopped', f'instance {s.k}: the tick following a traceback did not '
                          f'{"publish its TICK" if s.tick_pubs == pubs else "complete the periodic evaluation"}')
         self.stats['fsm'][s.fsm.state.name] += 1
+        if getattr(s, 'state_seen', None) != s.fsm.state: s.state_seen = s.fsm.state; s.state_since = T[0]
+        s.last_tick = T[0]
         for st in s.context.instances.values(): self.stats['instance_states'][st.state.name] += 1
         for app in s.context.applications.values(): self.stats['app_states'][app.state.name] += 1
 
@@ -1058,6 +1068,9 @@ def inject(w, s):
         information of a handshake - as the proxy posts it when the transfer failed (body None) """
     rnd = w.rnd; h = w.history[s.k]
     if not h: return
+    # the liveness statements (C08 / C09 / C10) quantify over crashes, restarts, partitions and process failures: a message of a previous
+    # incarnation delivered again a minute later is outside their fault model (it belongs to C16: whatever arrives, nothing raises)
+    if w.kw.get('liveness') and not w.kw.get('allow_inject'): return
     how = rnd.choice(['dup', 'dup', 'dup', 'dup', 'forge-ip', 'forge-id', 'noinfo', 'noinfo'])
     pool = h[-80:] if rnd.random() < 0.8 else h
     if how == 'noinfo':
@@ -1160,6 +1173,58 @@ def _schedule(w, rnd, cfg, kw):
     ng = rnd.choice([0, 0, 1, 3, 6]) if kw.get('forged', 'benign') not in (False, 'none') else 0
     forged_times = sorted(rnd.randint(T[0] + 2 * PERIOD, end) for _ in range(ng))
     budget = kw.get('max_ops', 6000)       # some configurations make Supvisors restart a process in a tight loop
+    if kw.get('ending'):
+        # ENDING scenario (C09): once the cluster has settled a restart / shutdown is requested on some instance, and a non-Master
+        # instance is lost a few ticks later (no reboot), while its processes may still be STOPPING
+        rnd3 = random.Random((w.seed * 40503 + 11) & 0xffffffff)
+        t_req = T[0] + rnd3.randint(14, 22) * PERIOD
+        _run_until(w, rnd, ks, t_req, boot_at, [], rpc_times, manual_times, [], budget)
+        live = [s for s in w.live() if s.started]
+        if live:
+            s0 = rnd3.choice(live)
+            w.user_rpc(s0, rnd3.choice(['restart', 'shutdown']), ())
+            _run_until(w, rnd, ks, T[0] + rnd3.randint(0, 3 * PERIOD), boot_at, [], [], [], [], budget)
+            masters = {x.state_modes.master_identifier for x in w.live()}
+            victims = [x for x in w.live() if x.identifier not in masters]
+            if victims and rnd3.random() < 0.8:
+                v = rnd3.choice(victims); w.go_down(v, 'crash (ending scenario)'); w.stats['faults']['crash'] += 1
+        fault_times, rpc_times, manual_times, forged_times = [], [], [], []
+        end = max(end, T[0] + 4 * PERIOD)
+    _run_until(w, rnd, ks, end, boot_at, fault_times, rpc_times, manual_times, forged_times, budget)
+    if kw.get('liveness'):
+        # QUIET PHASE: no fault, no user action, no manual action any more; cuts healed, proxies released; the fake Supervisors keep
+        # answering and the processes keep reporting.  Then the liveness judges (C09: the ending phase completes; C10: every job ends).
+        quiet = kw.get('quiet_ticks', 40)
+        w.net.cut.clear(); w.held.clear(); w.note('QUIET PHASE')
+        t_quiet = T[0]
+        _run_until(w, rnd, ks, T[0] + quiet * PERIOD, boot_at, [], [], [], [], budget + 6000)
+        margin = (quiet - 12) * PERIOD
+        for s in w.live():
+            if not s.started or getattr(s, 'last_tick', 0) < T[0] - 2 * PERIOD: continue
+            stname = s.fsm.state.name
+            if stname in ('RESTARTING', 'SHUTTING_DOWN') and s.state_since <= T[0] - margin:
+                w.finding(f'C09:free:ending-phase-stuck:{stname}', f'instance {s.k} has been in {stname} for {(T[0] - s.state_since) // PERIOD} ticks of the quiet '
+                          f'phase (stopper in progress: {s.stopper.in_progress()}; jobs {sorted(s.stopper.get_application_job_names())})')
+            for nm, cmdr in (('starter', s.starter), ('stopper', s.stopper)):
+                if cmdr.in_progress() and s.last_request <= T[0] - margin:
+                    cmds = [c for j in cmdr.current_jobs.values() for c in j.current_jobs]
+                    waits = any(c.process.rules.wait_exit for c in cmds)
+                    if waits: continue          # the documented exception: a wait_exit program that never exits
+                    # attribution: a request whose target is not seen RUNNING any more is never timed out (the time-outs are counted in the
+                    # ticks of the TARGET); how the command came to target a lost instance tells the root cause
+                    lostc = [c for c in cmds if c.identifier and s.context.instances[c.identifier].state.name != 'RUNNING']
+                    why = ''
+                    if lostc and nm == 'stopper' and all((c.process.info_map.get(c.identifier) or {}).get('state') == ProcessStates.STOPPING for c in lostc):
+                        why = ':stopping-entry-of-lost-instance'
+                    elif lostc:
+                        why = ':target-lost'
+                    w.finding(f'C10:free:job-never-ends:{nm}{why}', f'instance {s.k}: the {nm} still reports jobs in progress {(T[0] - s.last_request) // PERIOD} ticks after '
+                              f'its last request ({sorted(cmdr.get_application_job_names())}); pending: ' + '; '.join(
+                                  f'{c.process.namespec} on {c.identifier} (seen {s.context.instances[c.identifier].state.name if c.identifier else None})' for c in cmds))
+
+
+def _run_until(w, rnd, ks, end, boot_at, fault_times, rpc_times, manual_times, forged_times, budget):
+    kw = w.kw
     while T[0] < end and sum(w.stats['ops'].values()) < budget:
         busy = any(s.inbox or any(w.held.get((s.k, i), 0) <= T[0] for i, _ in s.proxies_with_work()) for s in w.live())
         if busy:
@@ -1250,6 +1315,83 @@ def _main(argv):
     return agg, hagg
 
 
+
+
+def _pool_job(a):
+    sd, kw = a
+    r = run_free(sd, **kw)
+    return sd, {'findings': [(x, y) for x, y in r['findings']], 'harness_errors': [str(h)[:300] for h in (r.get('harness_errors') or [])[:1]],
+                'stats': {k: v for k, v in (r.get('stats') or {}).items() if isinstance(v, (int, float))}}
+
+
+def run_many(seeds, kw, procs=None):
+    """ run_free over `seeds` in worker SUBPROCESSES (each schedule is deterministic per seed and independent of the others; run_free patches
+        the clock of its process, which a multiprocessing pool does not survive); results in seed order. """
+    import subprocess, os
+    seeds = list(seeds)
+    procs = procs or max(1, min(12, (os.cpu_count() or 2) - 2))
+    if procs == 1 or len(seeds) < 8:
+        return [_pool_job((sd, kw)) for sd in seeds]
+    chunks = [seeds[i::procs] for i in range(procs)]
+    env = dict(os.environ, PYTHONHASHSEED='0')
+    ps = [subprocess.Popen([sys.executable, os.path.abspath(__file__), '--worker', json.dumps(ch), json.dumps(kw)], stdout=subprocess.PIPE,
+                           stderr=subprocess.DEVNULL, env=env, text=True) for ch in chunks if ch]
+    out = {}
+    for p in ps:
+        o, _ = p.communicate()
+        line = [l for l in o.splitlines() if l.startswith('WORKER-RESULT ')]
+        if p.returncode != 0 or not line:
+            raise RuntimeError(f'free-running worker failed (exit {p.returncode}): {o[-300:]}')
+        for sd, r in json.loads(line[-1][len('WORKER-RESULT '):]):
+            r['findings'] = [tuple(x) for x in r['findings']]; out[sd] = r
+    return [(sd, out[sd]) for sd in seeds]
+
+
+def liveness_stage(chk, prefix, variants, n_quick, n_thorough):
+    """ Free-running stage of C09 / C10: FIXED seed range (deterministic per seed, validated on the unchanged tree), quiet phase at the end of
+        every schedule, judges of the family `prefix` only (the C16 signatures of the same schedules belong to ./check C16). """
+    import time as _t
+    t0 = _t.perf_counter()
+    n = n_quick if chk.tier == 'quick' else n_thorough
+    agg = {'schedules': 0, 'variants': [v for v in variants], 'corpus': 0}
+    # corpus first: the schedules of past failures (known findings and repaired defects)
+    cdir = os.path.join(os.path.dirname(os.path.dirname(os.path.abspath(__file__))), 'corpus', chk.prop)
+    for f in sorted(os.listdir(cdir)) if os.path.isdir(cdir) else []:
+        if not f.endswith('.json'): continue
+        c = json.load(open(os.path.join(cdir, f)))
+        if c.get('stage') != 'free' or not (c.get('free_kwargs') or {}).get('liveness'): continue
+        _, r = _pool_job((c['free_seed'], c['free_kwargs']))
+        agg['corpus'] += 1; agg['schedules'] += 1
+        for sig, what in r['findings']:
+            if sig.startswith(prefix):
+                chk.reject(sig, what, {'free_seed': c['free_seed'], 'stage': 'free', 'free_kwargs': c['free_kwargs'], 'corpus': f'corpus/{chk.prop}/{f}',
+                                       'how': f'./check {chk.prop} --replay corpus/{chk.prop}/{f}'})
+    for kwv in variants:
+        kw = dict(kwv, new_programs=0, liveness=True)
+        for sd, r in run_many(range(n), kw):
+            agg['schedules'] += 1
+            for sig, what in r['findings']:
+                if sig.startswith(prefix):
+                    chk.reject(sig, what, {'free_seed': sd, 'stage': 'free', 'free_kwargs': kw, 'how': f'./check {chk.prop} --replay <this file>'})
+            for k, v in r['stats'].items(): agg[k] = agg.get(k, 0) + v
+    agg['wall_s'] = round(_t.perf_counter() - t0, 1)
+    chk.coverage['free_running_stage'] = agg
+    chk.coverage['evaluations'] = chk.coverage.get('evaluations', 0) + agg['schedules']
+    chk.assumptions.append('free-running stage: the liveness judges (a restart / shutdown phase that never reaches FINAL, a Starter / Stopper job that never '
+                           'ends) look at a quiet window of 40 ticks at the end of a finite schedule; they are searches for a failing history, the unbounded '
+                           'statements are the theorems')
+
+
+def liveness_replay(chk, r, prefix):
+    res = run_free(r['free_seed'], **(r.get('free_kwargs') or {}))
+    for sig, what in res['findings']:
+        if sig.startswith(prefix): chk.reject(sig, what, {'free_seed': r['free_seed'], 'stage': 'free', 'free_kwargs': r.get('free_kwargs')})
+    chk.coverage.update({'evaluations': 1, 'distinct_nontrivial': 0, 'rule': 'replay', 'samples': [r['free_seed']]})
+
+
 if __name__ == '__main__':
-    if len(sys.argv) == 2: replay_free(int(sys.argv[1]))
+    if len(sys.argv) == 4 and sys.argv[1] == '--worker':
+        _res = [_pool_job((sd, json.loads(sys.argv[3]))) for sd in json.loads(sys.argv[2])]
+        print('WORKER-RESULT ' + json.dumps(_res))
+    elif len(sys.argv) == 2: replay_free(int(sys.argv[1]))
     else: _main(sys.argv)
